@@ -406,6 +406,9 @@ class ResTarget(object):
     def ping(self, t):
         return t
 
+    def quit(self):
+        raise SystemExit(0)      # e.g. application code calling sys.exit() inside a remote method
+
     def gen(self, n):
         return _free_gen(n)      # (a generator that does not keep the session instance alive while the stream lingers)
 
